@@ -47,6 +47,8 @@ def main(argv):
         _absint.REPO = repo
         from sa import pm as _pm
         _pm.SIGNATURES = repo.signatures()
+        _pm.SIGNATURES_ALL = repo._all_signatures
+        _pm.DEFAULTS = repo._defaults
         ctx = report.Ctx(prop, tier, repo)
         mod = importlib.import_module('sa.rules.%s' % prop.lower())
         explanation = mod.run(ctx)
